@@ -465,13 +465,18 @@ func c12E2(schemaText, item, input string) (sig, detail string) {
 		if err != nil {
 			return
 		}
+		after := 0
 		for i := 0; i < 4*len(input)+16; i++ {
 			n, err := r.Read()
 			if err != nil {
-				if r.IsContinuableError(err) {
+				if r.IsContinuableError(err) && after == 0 {
 					continue
 				}
-				return
+				// the caller keeps calling Read after the terminal result (still without any Release)
+				if after++; after > 2 {
+					return
+				}
+				continue
 			}
 			if e := auditTree(n); e != "" {
 				res = fmt.Sprintf("reader without Release, record %d: %s", i, e)
@@ -497,7 +502,7 @@ func init() {
 	core.Register(&core.Prop{
 		ID:    "C12",
 		Level: "model_checking",
-		Rule:  "E1: breadth-first search over all histories of CreateNode (plain / XML / JSON node; pool answer newest / fresh / oldest) . AddChild(any live node, any detached root) . RemoveAndReleaseTree(any live node) with at most 5 live nodes, deduplicated by canonical state (sorted forest shapes + pool size); after every operation the real links are compared with a slice-based mirror model, fresh nodes must be blank, pooled nodes reset and never live or duplicated, IDs never repeat (states and transitions counted). E2: every tree delivered through the Transform by all seven readers on corpus inputs and token strings is audited (links, acyclicity, pool membership) at every record and after the terminal result; a node released twice is caught by the shim pool; E2b: the XML and JSON stream readers on every document of up to 3 (thorough 4) nodes x 19 / 18 target xpaths (the document root itself with accepting / rejecting filters, children, descendants, nested candidates). E3: 2-3 threads each running a private create/add/remove history under the cooperative scheduler at every pool/atomic operation, preemption bound 2 (all schedules), plus a free-running -race pass of the same bodies",
+		Rule:  "E1: breadth-first search over all histories of CreateNode (plain / XML / JSON node; pool answer newest / fresh / oldest) . AddChild(any live node, any detached root) . RemoveAndReleaseTree(any live node) with at most 5 live nodes, deduplicated by canonical state (sorted forest shapes + pool size); after every operation the real links are compared with a slice-based mirror model, fresh nodes must be blank, pooled nodes reset and never live or duplicated, IDs never repeat (states and transitions counted). E2: every tree delivered through the Transform by all seven readers on corpus inputs and token strings is audited (links, acyclicity, pool membership) at every record and after the terminal result, also through the bare FormatReader whose caller never calls Release and calls Read twice more after the terminal result; a node released twice is caught by the shim pool; E2b: the XML and JSON stream readers on every document of up to 3 (thorough 4) nodes x 19 / 18 target xpaths (the document root itself with accepting / rejecting filters, children, descendants, nested candidates). E3: 2-3 threads each running a private create/add/remove history under the cooperative scheduler at every pool/atomic operation, preemption bound 2 (all schedules), plus a free-running -race pass of the same bodies",
 		Assumptions: []string{
 			"the shim pool (vsync.Pool: LIFO free list with a choice of newest/fresh/oldest on Get) models sync.Pool's freedom to keep, drop and reorder cached objects; the free-running pass uses the real sync.Pool",
 			"the -race pass is not exhaustive over schedules; it relies on the detector's happens-before analysis (exhaustive:false for that part)",
